@@ -1215,3 +1215,11 @@ func (p *Prog) pruneDead() {
 	}
 	p.ModFuncs = keep
 }
+
+// EffCallee2 is EffCallee for any call instruction (nil for go/defer of dynamic values).
+func EffCallee2(c ssa.CallInstruction) *ssa.Function {
+	if cl, ok := c.(*ssa.Call); ok {
+		return EffCallee(cl)
+	}
+	return c.Common().StaticCallee()
+}
